@@ -72,18 +72,19 @@ def cfg_label(c):
 
 
 def choose_quick(product, rnd, n=16):
-    """n configurations in which every value of every dimension occurs and the (idlen, smax) pairs spread out."""
-    chosen = []
-    pairs = [(i, s) for i in IDLENS for s in (0, 1, 5, 50)]
+    """n configurations in which every value of every dimension occurs; the (idlen, smax) pairs are spread out, and
+    only two of them use -Csmax=1 (a unit then becomes some hundred files: left to the thorough tier)."""
+    pairs = [(i, s) for i in IDLENS for s in (0, 5, 50)]
     rnd.shuffle(pairs)
-    # every idlen with every other dimension varied; the default limit gets one configuration more (it is the shipped one)
-    k = 0
-    for (i, s) in pairs[:n]:
+    ones = rnd.sample(IDLENS, 2)
+    pairs = [(i, 1) for i in ones] + pairs[:n - 2]
+    if 30 not in [i for i, _ in pairs[2:]]:
+        pairs[-1] = (30, 50)
+    chosen = []
+    for k, (i, s) in enumerate(pairs):
         std = (k % 2 == 0)
-        lines = ((k // 2) % 2 == 0) ^ (rnd.random() < 0.5)
-        c = [x for x in product if x["idlen"] == i and x["smax"] == s and x["std"] == std and x["lines"] == lines][0]
-        chosen.append(c)
-        k += 1
+        lines = (k % 4 < 2) ^ (rnd.random() < 0.5)
+        chosen.append([x for x in product if x["idlen"] == i and x["smax"] == s and x["std"] == std and x["lines"] == lines][0])
     return chosen
 
 
@@ -213,10 +214,112 @@ def global_frame(build, prog, names, fname_real, wd, tag):
     return None
 
 
+
+def compile_units(build, d, units, opts, axllib=None, rt=None, timeout=120):
+    """units: [(file base name, source text, is_main)], compiled in this order in directory d (a library unit with -Fc -Fao,
+    the main unit with -Fc -Fmain); then gcc compiles and links EVERY C file in d.  Result as progrun.run_c_all plus
+    "parts": {unit: C files that appeared while it was compiled}."""
+    os.makedirs(d, exist_ok=True)
+    parts = {}
+    overwritten = {}
+    have = set()
+
+    def digest():
+        return {os.path.basename(f): hashlib.sha1(open(f, "rb").read()).hexdigest() for f in glob.glob(os.path.join(d, "*.[ch]"))}
+    for base, text, main in units:
+        open(os.path.join(d, base + ".as"), "w").write(text)
+        before = digest()
+        rc, out, err, to = vlib.aldor(build, list(opts) + (["-Fc", "-Fmain"] if main else ["-Fc", "-Fao"]) + [base + ".as"], d, timeout=timeout)
+        after = digest()
+        now = set(f for f in after if f.endswith(".c"))
+        parts[base] = sorted(now - have)
+        overwritten[base] = sorted(f for f in before if after.get(f) != before[f])     # files of EARLIER units this compile changed or removed
+        have = now
+        if rc != 0 or to:
+            return {"rc": rc, "out": out.decode(errors="replace"), "err": err.decode(errors="replace"), "phase": "compile", "timeout": to,
+                    "dir": d, "parts": parts, "overwritten": overwritten, "cfiles": sorted(have), "hfiles": []}
+    cfiles = sorted(have)
+    cmd = ["gcc", "-w", "-O0", "-I" + vlib.SRC] + GCC_STRICT + ["-o", "p"] + cfiles + \
+          [axllib or os.path.join(AXL_DIR, "libaxllib.a"), rt or build["rt"], "-lm"]
+    rc, out, err, to = vlib.run(cmd, cwd=d, timeout=600)
+    res = {"dir": d, "parts": parts, "overwritten": overwritten, "cfiles": cfiles, "hfiles": sorted(os.path.basename(f) for f in glob.glob(os.path.join(d, "*.h")))}
+    if rc != 0 or to:
+        res.update({"rc": rc, "out": out.decode(errors="replace"), "err": err.decode(errors="replace"), "phase": "link", "timeout": to})
+        return res
+    rc, out, err, to = vlib.run(["./p"], cwd=d, timeout=timeout)
+    res.update({"rc": rc, "out": out.decode(errors="replace"), "err": err.decode(errors="replace"), "phase": "run", "timeout": to})
+    return res
+
+
+def scenarios(chk, b, wd, colp, exp, frame, rnd, libs0):
+    """Programs of several units (the collision program split by render.render_split: both functions in a library unit):
+    A. the two functions carry a name pair that satisfies the collision condition (TLC, real hash) in the library unit;
+    B. the two units have names that share their first 30 characters;
+    C. the two units have names that share their first five characters and are split into part files (-Csmax=1).
+    Each must behave as the specification says under the default options; each is also run with -Cidlen=0 against
+    libraries regenerated with -Cidlen=0 (libs0), where nothing is truncated."""
+    out = []
+
+    def judge(tag, res, opts, evidence):
+        verdict = progcheck.classify(res, exp)
+        chk.case(("units", tag, " ".join(opts)), nontrivial=True)
+        chk.traces += 1
+        out.append({"scenario": tag, "opts": list(opts), "verdict": list(verdict) if verdict else None, "evidence": evidence})
+        if verdict is None:
+            return
+        kind, sig = verdict
+        key = {"kind": kind, "sig": sig, "scenario": tag, "opts": list(opts)}
+        if evidence:
+            key = {"kind": kind, "cause": evidence, "units": 2}
+        chk.violation("%s in the %s scenario under %s: %s" % (kind, tag, " ".join(opts) or "(default)", sig),
+                      {"scenario": tag, "opts": list(opts), "got_out": res["out"][:1500], "got_err": res["err"][:2500], "rc": res["rc"],
+                       "phase": res["phase"], "expected_out": exp["out"], "parts": res.get("parts"), "evidence": evidence,
+                       "sources": {u: open(os.path.join(res["dir"], u + ".as")).read() for u in res.get("parts", {})}}, key=key)
+
+    def dup_exports(res):
+        ex = []
+        for fn in res.get("cfiles", []):
+            ex += re.findall(r'fiExportGlobal\("([^"]*)"', open(os.path.join(res["dir"], fn), errors="replace").read())
+        return sorted(set(x for x in ex if ex.count(x) > 1))
+    zero = ("-Cidlen=0",)
+    kw0 = {"axllib": libs0["axllib"], "rt": libs0["rt"]} if libs0 else None
+    # A
+    if frame:
+        unit = "plib"
+        stem = "".join(rnd.choice("abcdefghijklmnopqrstuvwxyz") for _ in range(3)) + "CollidingFunctionNameStem"
+        pairs = tlc_search(chk, unit + frame[0][1:] + stem, frame[1], 30, want=1)
+        if pairs:
+            names = {"fa": stem + pairs[0]["va"], "fb": stem + pairs[0]["vb"]}
+            lib_text, client_text = render.render_split(colp, [0, 1], libref=unit + ".ao", libid="PLib", names=names)
+            for opts, kw, t in (((), {}, "d"), (zero, kw0, "z")):
+                if kw is None:
+                    continue
+                res = compile_units(b, os.path.join(wd, "scenA" + t), [(unit, lib_text, False), ("p", client_text, True)], opts, **kw)
+                judge("colliding-globals-in-library-unit", res, opts, "duplicate-global-link-name" if dup_exports(res) else None)
+    # B
+    ua, ub = "c16unitwithaverylongsharednameA", "c16unitwithaverylongsharednameB"
+    lib_text, client_text = render.render_split(colp, [0, 1], libref=ua + ".ao", libid="PLib")
+    for opts, kw, t in (((), {}, "d"), (zero, kw0, "z")):
+        if kw is None:
+            continue
+        res = compile_units(b, os.path.join(wd, "scenB" + t), [(ua, lib_text, False), (ub, client_text, True)], opts, **kw)
+        ev = "unit-init-function-name-collision" if res["phase"] == "link" and re.search(r"multiple definition of `INIT__", res["err"]) else None
+        judge("unit-names-sharing-30-characters", res, opts, ev)
+    # C
+    ua, ub = "c16spA", "c16spB"
+    lib_text, client_text = render.render_split(colp, [0, 1], libref=ua + ".ao", libid="PLib")
+    for opts, t in ((("-Csmax=1",), "s"), ((), "d")):
+        res = compile_units(b, os.path.join(wd, "scenC" + t), [(ua, lib_text, False), (ub, client_text, True)], opts)
+        # C files of the first unit that the compilation of the second unit overwrote
+        redone = [f for f in res.get("overwritten", {}).get(ub, []) if f.endswith(".c")]
+        judge("unit-names-sharing-5-characters-split", res, opts, "split-part-file-names-collide" if redone else None)
+    return out
+
 # ---------------------------------------------------------------------------------------------------------------
 
 def run(chk, tier):
     t_start = time.time()
+    marks = {}
     b = vlib.vbuild()
     wd = vlib.scratch("c16")
     rnd = random.Random(chk.seed)
@@ -289,6 +392,32 @@ def run(chk, tier):
         fam.exp[p["id"]] = fam.exp[base_id]
         variants.append((p, "crafted", names, real))
         styles[p["id"]] = "crafted"
+    marks["models+programs"] = time.time() - t_start
+
+    # ---- 3b. baseline: the statement is relative to the default options.  A program whose executable does not show the
+    # specified behaviour under the default options is the business of C01/C03 (recorded findings there); it is excluded here.
+    def base(v):
+        p, style, names, real = v
+        return progrun.run_c_all(b, p, wd, extra_args=(), names=names, tag="-baseline", cflags=GCC_STRICT, timeout=120)
+    with concurrent.futures.ThreadPoolExecutor(max_workers=vlib.NCPU) as ex:
+        base_res = list(ex.map(base, variants))
+    excluded = []
+    kept = []
+    default_imports = {}
+    for v, res in zip(variants, base_res):
+        verdict = progcheck.classify(res, fam.exp[v[0]["id"]])
+        chk.case((v[0]["id"], v[1], "(default) [shipped]"), nontrivial=len(fam.exp[v[0]["id"]]["out"]) > 0)
+        default_imports[v[0]["id"]] = link_strings(read_c(res), "fiImportGlobal")
+        if verdict is None:
+            kept.append(v)
+        else:
+            excluded.append({"program": v[0]["id"], "style": v[1], "default_options_run": list(verdict)})
+    chk.traces += len(variants)
+    if len(kept) * 2 < len(variants):
+        raise vlib.MachineryError("more than half of the programs do not conform under the default options: %s" % excluded[:3])
+    variants = kept
+    chk.extra["excluded_nonconforming_under_default_options"] = excluded
+    marks["baseline"] = time.time() - t_start
 
     # ---- 4. libraries with the same limit (the shipped archives only fit the default) -------------------------
     lib_idlens = sorted(set(c["idlen"] for c in chosen) - {30})
@@ -310,6 +439,7 @@ def run(chk, tier):
         for (unit, phase, text) in info["failures"]:
             chk.violation("library unit %s does not compile under %s: %s" % (unit, info["opts"], phase), {"unit": unit, "opts": info["opts"], "text": text},
                           key={"kind": "link-fail", "unit": unit, "opts": info["opts"], "where": "library"})
+    marks["libraries"] = time.time() - t_start
     chk.extra["libraries_regenerated"] = {"options": [list(i["opts"]) for i in list(libs.values()) + list(extra_libs.values())], "c_files_compiled": lib_files}
 
     # ---- 5. replay: every (program variant, configuration) --------------------------------------------------
@@ -319,7 +449,10 @@ def run(chk, tier):
         if style == "crafted" and quick:
             cfgs = [c for c in chosen if c["smax"] in (0, 50)][:6] + [c for c in chosen if c["idlen"] == 30][:2]
         for c in cfgs:
-            jobs.append((vi, c, "shipped"))
+            # against the shipped archives a limit other than the default fails at start-up (recorded finding): the quick
+            # tier keeps that visible with three programs and spends the rest on libraries regenerated with the same limit
+            if c["idlen"] == 30 or not quick or vi < 3 or style == "crafted":
+                jobs.append((vi, c, "shipped"))
             if c["idlen"] != 30:
                 jobs.append((vi, c, "samelimit"))
     if not quick:
@@ -340,12 +473,13 @@ def run(chk, tier):
     with concurrent.futures.ThreadPoolExecutor(max_workers=vlib.NCPU) as ex:
         results = list(ex.map(do, jobs))
     chk.traces += len(jobs)
+    marks["replay"] = time.time() - t_start
 
     # reference outputs (nothing truncated) for the alignment: per (variant, std, smax, lines)
     refs = {}
     need = set()
     for (vi, c, route), res in zip(jobs, results):
-        if route == "shipped":
+        if route in ("shipped", "samelimit"):
             if c["idlen"] == 0:
                 refs[(vi, c["std"], c["smax"], c["lines"])] = read_c(res)
             else:
@@ -373,10 +507,7 @@ def run(chk, tier):
     seen_bind = set()
     spell_obs = {}            # (ref ident, idlen) -> observed ident
     align_problems = []
-    default_imports = {}
-    for (vi, c, route), res in zip(jobs, results):
-        if route == "shipped" and c["idlen"] == 30:
-            default_imports.setdefault(vi, set()).update(link_strings(read_c(res), "fiImportGlobal"))
+    scanned = set()
     conflicts_by_prog = {}
     pending = []
     for (vi, c, route), res in zip(jobs, results):
@@ -389,7 +520,9 @@ def run(chk, tier):
         chk.case((p["id"], style, label), nontrivial=len(exp["out"]) > 0)
         verdict = progcheck.classify(res, exp)
         files = None
-        if route == "shipped" and c.get("std") is not None:
+        scan = route in ("shipped", "samelimit") and c.get("std") is not None and c["idlen"] != 0 and res["phase"] != "compile" \
+            and (vi, cfg_label(c)) not in scanned
+        if scan or (verdict is not None and route == "shipped" and c["idlen"] != 30):
             files = read_c(res)
         if verdict is not None:
             st["bad"] += 1
@@ -397,14 +530,15 @@ def run(chk, tier):
             key = {"kind": kind, "sig": sig, "route": route, "opts": list(c["opts"]), "style": style}
             if route == "shipped" and c["idlen"] != 30 and files is not None:
                 imps = link_strings(files, "fiImportGlobal")
-                base = default_imports.get(vi)
+                base = default_imports.get(p["id"])
                 if base is not None and imps - base:
                     # the names of imported library globals are spelled differently than under the limit the shipped
                     # libraries were generated with: they cannot be resolved at run time
                     key = {"kind": kind, "cause": "library-global-names-depend-on-idlen", "route": route, "idlen": c["idlen"]}
             pending.append((p, c, route, label, kind, sig, key, res, exp, names))
         # names: align with the untruncated output of the same program under the same other options
-        if files is not None and c["idlen"] != 0 and res["phase"] != "compile":
+        if scan:
+            scanned.add((vi, cfg_label(c)))
             ref = refs.get((vi, c["std"], c["smax"], c["lines"]))
             if ref:
                 binds, problem = cn.align(ref, files)
@@ -478,6 +612,10 @@ def run(chk, tier):
                   "cfiles": res.get("cfiles"), "source": render.render(p, names), "abstract": p}
         chk.violation("%s under %s: program %s (%s names) %s" % (kind, label, p["id"], styles.get(p["id"]), sig), detail, key=key)
 
+    marks["names"] = time.time() - t_start
+    # ---- 8b. programs of several units -------------------------------------------------------------------------
+    chk.extra["multi_unit_scenarios"] = scenarios(chk, b, wd, colp, fam.exp[colp["id"]], frame, rnd, libs.get(0) or build_libs(b, ("-Cidlen=0",)))
+    marks["scenarios"] = time.time() - t_start
     # ---- 9. option machine: a later option of a group overrides an earlier one (drift only) -------------------
     ov_drift = []
     if variants:
@@ -530,7 +668,8 @@ def run(chk, tier):
     chk.assumptions += ["gcc -O0 with -Werror=implicit-function-declaration stands for 'compiles without error'",
                         "collisions of names inside one function body or struct are compile errors and are left to gcc",
                         "entity identity = the identifier at the same token position of the -Cidlen=0 output of the same program and options"]
-    chk.extra["wall_breakdown_s"] = round(time.time() - t_start, 1)
+    marks["end"] = time.time() - t_start
+    chk.extra["wall_marks_s"] = {k: round(v, 1) for k, v in marks.items()}
 
 
 SELFTEST_NOTES = """
